@@ -401,6 +401,44 @@ theorem c06_reached_callback_only_on_permit (cfg : Cfg) (voters : List Voter) :
 example : callbackFor (runVote ⟨.majority, none, 1⟩ [voterOf .permit 1 1, voterOf .permit 1 1, voterOf .block 1 1]) = .onReached ∧
     callbackFor (runVote ⟨.majority, none, 1⟩ [voterOf .block 1 1]) = .onFailed := by decide +kernel
 
+/-- The order in which the colony is polled does not matter: any permutation of the electorate gives the same
+    reached flag, decision and counts (and the same votes, permuted) - for every strategy, incl. the two loops of the
+    Bayesian aggregator.  (This is what lets the weight table enumerate multisets of voters only.) -/
+theorem c06_voter_order_is_irrelevant (cfg : Cfg) (voters voters' : List Voter) (h : voters.Perm voters') :
+    (runVote cfg voters').reached = (runVote cfg voters).reached ∧
+    (runVote cfg voters').decision = (runVote cfg voters).decision ∧
+    (runVote cfg voters').permit = (runVote cfg voters).permit ∧
+    (runVote cfg voters').block = (runVote cfg voters).block ∧
+    (runVote cfg voters').abstain = (runVote cfg voters).abstain ∧
+    (runVote cfg voters').total = (runVote cfg voters).total ∧
+    (runVote cfg voters).votes.Perm (runVote cfg voters').votes := by
+  have hc : (collect voters).Perm (collect voters') := by unfold collect; exact h.map toVote
+  have hk : ∀ k, (ofKind k (collect voters)).length = (ofKind k (collect voters')).length := fun k => by
+    unfold ofKind; exact (hc.filter _).length_eq
+  have c1 : nP (collect voters) = nP (collect voters') := hk .permit
+  have c2 : nB (collect voters) = nB (collect voters') := hk .block
+  have c3 : nA (collect voters) = nA (collect voters') := hk .abstain
+  have hlen : voters.length = voters'.length := h.length_eq
+  have hreach : (runVote cfg voters').reached = (runVote cfg voters).reached := by
+    have e : (runVote cfg voters').reached = true ↔ (runVote cfg voters).reached = true := by
+      rw [run_reached_iff, run_reached_iff, ← c1, ← c2, ← hlen, stratReached_perm cfg voters.length hc]
+    cases h1 : (runVote cfg voters').reached <;> cases h2 : (runVote cfg voters).reached <;> simp_all
+  obtain ⟨a1, a2, a3, a4, a5⟩ := counts_eq cfg voters.length (collect voters)
+  obtain ⟨b1, b2, b3, b4, b5⟩ := counts_eq cfg voters'.length (collect voters')
+  refine ⟨hreach, ?_, ?_, ?_, ?_, ?_, ?_⟩
+  · unfold runVote at *
+    rw [decision_eq, decision_eq, hreach, c1, c2]
+  · unfold runVote; rw [a2, b2, c1]
+  · unfold runVote; rw [a3, b3, c2]
+  · unfold runVote; rw [a4, b4, c3]
+  · unfold runVote; rw [a1, b1, collect_length, collect_length, hlen]
+  · unfold runVote; rw [a5, b5]; exact hc
+
+/-- e.g. the Bayesian aggregator, which walks the permits first and the blocks second, on a ballot given in two orders -/
+example : (runVote ⟨.bayesian, some (3 / 5), 1⟩ [voterOf .block (1 / 2) (1 / 2), voterOf .permit 1 1, voterOf .raises 2 1, voterOf .permit 1 (1 / 4)]).decision
+    = (runVote ⟨.bayesian, some (3 / 5), 1⟩ [voterOf .permit 1 (1 / 4), voterOf .raises 2 1, voterOf .permit 1 1, voterOf .block (1 / 2) (1 / 2)]).decision := by
+  decide +kernel
+
 /-! ### Totality and the extracted constants -/
 
 /-- `run_vote` returns a result for every non-empty colony (the only raise of the model is the count strategy's
